@@ -241,7 +241,7 @@ const prelude = `(set-option :produce-models true)
 (declare-sort Str 0)
 (declare-fun slen (Str) Int)
 (declare-fun sat (Str Int) Int)
-(assert (forall ((s Str)) (! (and (>= (slen s) 0) (<= (slen s) 2305843009213693952)) :pattern ((slen s)))))
+(assert (forall ((s Str)) (! (and (>= (slen s) 0) (<= (slen s) 1099511627776)) :pattern ((slen s)))))
 (define-fun tdiv ((a Int) (b Int)) Int (ite (>= a 0) (ite (> b 0) (div a b) (- (div a (- b)))) (ite (> b 0) (- (div (- a) b)) (div (- a) (- b)))))
 (define-fun trem ((a Int) (b Int)) Int (ite (>= a 0) (mod a (abs b)) (- (mod (- a) (abs b)))))
 (define-fun wrapu ((x Int) (m Int)) Int (mod x m))
